@@ -42,133 +42,155 @@ theorem parseOffset_bounds {s : Bytes} {v : Int} (h : parseOffset s = some v) : 
 
 /-! ### HttpHdrRangeSpec::parseInit -/
 
+theorem parseLast_wf {off : Int} {p : Bytes} {s : Spec} (ho0 : 0 ≤ off) (h : parseLast off p = .ok s) : s.WF := by
+  have e1 := LLONG_MAX_eq; have e2 := LLONG_MIN_eq
+  unfold parseLast at h
+  split at h
+  · cases h
+  · rename_i last hlast
+    have hlb := parseOffset_bounds hlast
+    split at h
+    · cases h
+    · split at h
+      · cases h
+      · rename_i hlo
+        split at h
+        · cases h
+        · rename_i e he
+          simp only [add64] at he
+          split at he
+          · rename_i hfit
+            injection he with he; subst he
+            have hfit' := (fits64_iff _).mp hfit
+            split at h
+            · cases h
+            · rename_i len hsz
+              injection h with h; subst h
+              have hgt : last + 1 > off := by omega
+              simp only [HttpRange.size, hgt, if_true, sub64] at hsz
+              split at hsz
+              · injection hsz with hsz; subst hsz
+                exact Or.inr (Or.inr ⟨by simp only; omega, by simp only; omega, by simp only; omega⟩)
+              · cases hsz
+          · cases he
+
+theorem parseLast_fault {off : Int} {p : Bytes} {f : Fault} (ho0 : 0 ≤ off) (hob : off ≤ LLONG_MAX)
+    (h : parseLast off p = .fault f) : f = .ub ∧ parseOffset p = some LLONG_MAX := by
+  have e1 := LLONG_MAX_eq; have e2 := LLONG_MIN_eq
+  unfold parseLast at h
+  split at h
+  · cases h
+  · rename_i last hlast
+    have hlb := parseOffset_bounds hlast
+    split at h
+    · cases h
+    · split at h
+      · cases h
+      · rename_i hlo
+        split at h
+        · rename_i f' he
+          injection h with h; subst h
+          simp only [add64] at he
+          split at he
+          · cases he
+          · rename_i hnf
+            injection he with he; subst he
+            have : ¬ (LLONG_MIN ≤ last + 1 ∧ last + 1 ≤ LLONG_MAX) := fun hh => hnf ((fits64_iff _).mpr hh)
+            have hl : last = LLONG_MAX := by omega
+            exact ⟨rfl, by rw [hlast, hl]⟩
+        · rename_i e he
+          simp only [add64] at he
+          split at he
+          · rename_i hfit
+            injection he with he; subst he
+            have hfit' := (fits64_iff _).mp hfit
+            split at h
+            · rename_i f' hsz
+              have hgt : last + 1 > off := by omega
+              simp only [HttpRange.size, hgt, if_true] at hsz
+              rw [sub64_ok (by omega) (by omega)] at hsz
+              cases hsz
+            · cases h
+          · cases he
+
+theorem parseFirst_wf {field : Bytes} {flen k : Nat} {s : Spec} (h : parseFirst field flen k = .ok s) : s.WF := by
+  have e3 := Unknown_eq
+  unfold parseFirst at h
+  split at h
+  · cases h
+  · rename_i off hoff
+    have hob := parseOffset_bounds hoff
+    split at h
+    · cases h
+    · rename_i hk
+      have hk' : known off = true := by simpa using hk
+      have hoff0 := (known_iff _).mp hk'
+      split at h
+      · exact parseLast_wf (by omega) h
+      · injection h with h; subst h
+        exact Or.inr (Or.inl ⟨by simp only; omega, hob.2, by simp only; omega⟩)
+
+theorem parseFirst_fault {field : Bytes} {flen k : Nat} {f : Fault} (h : parseFirst field flen k = .fault f) :
+    f = .ub ∧ parseOffset (field.drop (k + 1)) = some LLONG_MAX := by
+  unfold parseFirst at h
+  split at h
+  · cases h
+  · rename_i off hoff
+    have hob := parseOffset_bounds hoff
+    split at h
+    · cases h
+    · rename_i hk
+      have hk' : known off = true := by simpa using hk
+      have hoff0 := (known_iff _).mp hk'
+      split at h
+      · exact parseLast_fault (by omega) hob.2 h
+      · cases h
+
+theorem parseSuffix_wf {rest : Bytes} {s : Spec} (h : parseSuffix rest = .ok s) : s.WF := by
+  have e3 := Unknown_eq
+  unfold parseSuffix at h
+  split at h
+  · cases h
+  · rename_i len hlen
+    split at h
+    · rename_i hk
+      injection h with h; subst h
+      have := (known_iff _).mp hk
+      have hb := parseOffset_bounds hlen
+      exact Or.inl ⟨by simp only; omega, by simp only; omega, hb.2⟩
+    · cases h
+
 /-- whatever `parseInit` accepts is a well-formed spec (suffix / trailer / range with `offset + length ≤ INT64_MAX`) -/
 theorem parseSpec_wf {field : Bytes} {flen : Nat} {s : Spec} (h : parseSpec field flen = .ok s) : s.WF := by
-  have e1 := LLONG_MAX_eq; have e2 := LLONG_MIN_eq; have e3 := Unknown_eq
   unfold parseSpec at h
   split at h
   · cases h
   · split at h
-    · -- suffix
-      split at h
-      · cases h
-      · rename_i len hlen
-        split at h
-        · rename_i hk
-          injection h with h; subst h
-          have := (known_iff _).mp hk
-          have hb := parseOffset_bounds hlen
-          exact Or.inl ⟨by simp only; omega, by simp only; omega, hb.2⟩
-        · cases h
+    · exact parseSuffix_wf h
     · split at h
       · cases h
-      · rename_i k _
-        split at h
+      · split at h
+        · exact parseFirst_wf h
         · cases h
-        · split at h
-          · cases h
-          · rename_i off hoff
-            have hob := parseOffset_bounds hoff
-            split at h
-            · cases h
-            · rename_i hk
-              have hk' : known off = true := by simpa using hk
-              have hoff0 := (known_iff _).mp hk'
-              split at h
-              · split at h
-                · cases h
-                · rename_i last hlast
-                  have hlb := parseOffset_bounds hlast
-                  split at h
-                  · cases h
-                  · split at h
-                    · cases h
-                    · rename_i hlo
-                      split at h
-                      · cases h
-                      · rename_i e he
-                        simp only [add64] at he
-                        split at he
-                        · rename_i hfit
-                          injection he with he; subst he
-                          have hfit' := (fits64_iff _).mp hfit
-                          split at h
-                          · cases h
-                          · rename_i len hsz
-                            injection h with h; subst h
-                            simp only [HttpRange.size] at hsz
-                            have hgt : last + 1 > off := by omega
-                            simp only [hgt, if_true, sub64] at hsz
-                            split at hsz
-                            · injection hsz with hsz; subst hsz
-                              exact Or.inr (Or.inr ⟨by simp only; omega, by simp only; omega, by simp only; omega⟩)
-                            · cases hsz
-                        · cases he
-              · injection h with h; subst h
-                exact Or.inr (Or.inl ⟨by simp only; omega, hob.2, by simp only; omega⟩)
 
 /-- the only fault `parseInit` can raise is the signed overflow of `last_pos + 1`, and only for `last_pos = INT64_MAX` -/
 theorem parseSpec_fault {field : Bytes} {flen : Nat} {f : Fault} (h : parseSpec field flen = .fault f) :
     f = .ub ∧ ∃ k, dashIndex field = some k ∧ parseOffset (field.drop (k + 1)) = some LLONG_MAX := by
-  have e1 := LLONG_MAX_eq; have e2 := LLONG_MIN_eq; have e3 := Unknown_eq
   unfold parseSpec at h
   split at h
   · cases h
   · split at h
-    · split at h
+    · unfold parseSuffix at h
+      split at h
       · cases h
       · split at h <;> cases h
     · split at h
       · cases h
       · rename_i k hk
         split at h
+        · obtain ⟨h1, h2⟩ := parseFirst_fault h
+          exact ⟨h1, k, hk, h2⟩
         · cases h
-        · split at h
-          · cases h
-          · rename_i off hoff
-            have hob := parseOffset_bounds hoff
-            split at h
-            · cases h
-            · rename_i hkn
-              have hk' : known off = true := by simpa using hkn
-              have hoff0 := (known_iff _).mp hk'
-              split at h
-              · split at h
-                · cases h
-                · rename_i last hlast
-                  have hlb := parseOffset_bounds hlast
-                  split at h
-                  · cases h
-                  · split at h
-                    · cases h
-                    · rename_i hlo
-                      split at h
-                      · rename_i f' he
-                        injection h with h; subst h
-                        simp only [add64] at he
-                        split at he
-                        · cases he
-                        · rename_i hnf
-                          injection he with he; subst he
-                          have : ¬ (LLONG_MIN ≤ last + 1 ∧ last + 1 ≤ LLONG_MAX) := fun hh => hnf ((fits64_iff _).mpr hh)
-                          have hl : last = LLONG_MAX := by omega
-                          exact ⟨rfl, k, hk, by rw [hlast, hl]⟩
-                      · rename_i e he
-                        simp only [add64] at he
-                        split at he
-                        · rename_i hfit
-                          injection he with he; subst he
-                          have hfit' := (fits64_iff _).mp hfit
-                          split at h
-                          · rename_i f' hsz
-                            simp only [HttpRange.size] at hsz
-                            have hgt : last + 1 > off := by omega
-                            simp only [hgt, if_true] at hsz
-                            rw [sub64_ok (by omega) (by omega)] at hsz
-                            cases hsz
-                          · cases h
-                        · cases he
-              · cases h
 
 /-! ### the item loop as a fold over the items -/
 
